@@ -213,3 +213,153 @@ Proof.
 Qed.
 
 End HH.
+
+(* ------------------------------------------------------------------------------------------ *)
+(* T2 / T3: attached trees are not nested; a file with a creator under an attached tree is a    *)
+(* file of that tree.  Frames: ATF (no tree becomes attached), U (a file creator is kept or is  *)
+(* consistent with every attached tree)                                                        *)
+(* ------------------------------------------------------------------------------------------ *)
+Definition AT (s : st) (t : str) : Prop := is_detached (KTree, t) s = false.
+Definition ATF (s s' : st) : Prop := forall t, AT s' t -> AT s t.
+Definition U (s s' : st) : Prop :=
+  forall f c, creator_of (KFile, f) s' = Some c ->
+    creator_of (KFile, f) s = Some c \/ (forall t, AT s' t -> is_prefix t f = true -> c = (KTree, t)).
+Definition W (s s' : st) : Prop := TT s s' /\ U s s'.
+
+Definition T2p (s : st) : Prop := forall t1 t2, AT s t1 -> AT s t2 -> is_prefix t1 t2 = true -> t1 = t2.
+Definition T3p (s : st) : Prop :=
+  forall f c t, creator_of (KFile, f) s = Some c -> AT s t -> is_prefix t f = true -> c = (KTree, t).
+
+Lemma ATF_refl s : ATF s s.
+Proof. intros t H. exact H. Qed.
+Lemma ATF_trans s1 s2 s3 : ATF s1 s2 -> ATF s2 s3 -> ATF s1 s3.
+Proof. intros A B t H. apply A. apply B. exact H. Qed.
+Lemma ATF_nodes s s' : nodes s' = nodes s -> ATF s s'.
+Proof. intros E t. unfold AT. rewrite !is_detached_findn, E. auto. Qed.
+Lemma ATF_ND s s' : ND s s' -> ATF s s'.
+Proof.
+  intros HN t. unfold AT. rewrite !is_detached_findn.
+  destruct (findn (KTree, t) (nodes s')) as [n'|] eqn:Hn'; [|discriminate].
+  destruct (HN _ _ Hn') as [n [Hn [_ Hd]]]. rewrite Hn. intros H. destruct (ndet n); [|reflexivity].
+  rewrite (Hd eq_refl) in H. discriminate.
+Qed.
+Lemma ATF_NF K s s' : (forall x, In x K -> fst x <> KTree) -> NF K s s' -> ATF s s'.
+Proof.
+  intros HK [_ H] t. unfold AT. intros Ha. destruct (is_detached (KTree, t) s) eqn:E; [|reflexivity].
+  rewrite (H (KTree, t)) in Ha; [discriminate | | exact E]. intros Hin. apply (HK _ Hin). reflexivity.
+Qed.
+
+Lemma U_refl s : U s s.
+Proof. intros f c H. left. exact H. Qed.
+Lemma U_trans s1 s2 s3 : U s1 s2 -> U s2 s3 -> ATF s2 s3 -> U s1 s3.
+Proof.
+  intros A B HA f c H3. destruct (B f c H3) as [H2|G]; [|right; exact G].
+  destruct (A f c H2) as [H1|G]; [left; exact H1|]. right. intros t Ht. apply G. apply HA. exact Ht.
+Qed.
+Lemma U_cre s s' :
+  (forall f c, creator_of (KFile, f) s' = Some c -> creator_of (KFile, f) s = Some c) -> U s s'.
+Proof. intros H f c Hc. left. apply H. exact Hc. Qed.
+
+Lemma W_refl s : W s s.
+Proof. split; [apply TT_refl | apply U_refl]. Qed.
+Lemma W_trans s1 s2 s3 : W s1 s2 -> W s2 s3 -> ATF s2 s3 -> W s1 s3.
+Proof. intros [A1 A2] [B1 B2] HA. split; [eapply TT_trans; eassumption | eapply U_trans; eassumption]. Qed.
+Lemma W_cre_files s s' :
+  (forall f c, creator_of (KFile, f) s' = Some c -> creator_of (KFile, f) s = Some c) ->
+  files s' = files s -> W s s'.
+Proof. intros Hc Hf. split; [apply TT_cre_files; assumption | apply U_cre; exact Hc]. Qed.
+Lemma W_nodes_files s s' : nodes s' = nodes s -> files s' = files s -> W s s'.
+Proof. intros Hn Hf. apply W_cre_files; [|exact Hf]. intros f c. rewrite !creator_of_findn, Hn. auto. Qed.
+Lemma W_ND_FT s s' : ND s s' -> FT s s' -> Rows s' -> W s s'.
+Proof. intros HN HF HR. split; [apply TT_ND_FT; assumption | apply U_cre; apply ND_creator; exact HN]. Qed.
+
+Lemma T2p_ATF s s' : T2p s -> ATF s s' -> T2p s'.
+Proof. intros H HA t1 t2 H1 H2. apply H; apply HA; assumption. Qed.
+Lemma T3p_U s s' : T3p s -> ATF s s' -> U s s' -> T3p s'.
+Proof.
+  intros H HA HU f c t Hc Ht Hp. destruct (HU f c Hc) as [H0|G]; [|apply G; assumption].
+  apply (H f c t H0); [apply HA; exact Ht | exact Hp].
+Qed.
+
+Section HH2.
+Context {hh : bool}.
+
+Lemma create_W k creator arg s :
+  Inv hh s -> arg_ok k creator arg ->
+  (forall c, creator = Some c -> fst k = KFile ->
+     (forall t, AT s t -> is_prefix t (snd k) = true -> c = (KTree, t)) /\
+     (forall t, c = (KTree, t) -> arg = InitFile FUnconfirmed /\ is_prefix t (snd k) = true)) ->
+  wpg false (create k creator arg s) (W s).
+Proof.
+  intros HI Harg Hcond. eapply wpg_weaken.
+  { apply wpg_conj; [apply wpg_conj|];
+      [apply (@create_spec hh false k creator arg s HI Harg); intros H; discriminate H
+      | apply (@create_struct hh); assumption
+      | apply (@create_TT hh); [exact HI | exact Harg|]].
+    intros t Hc Hk. destruct (Hcond _ Hc Hk) as [_ H]. apply H. reflexivity. }
+  intros s' [[[I' [NF' [_ [_ [Hcre _]]]]] [P1 _]] HT]. split; [exact HT|].
+  intros f c H. destruct (key_eq_dec (KFile, f) k) as [E|Hne].
+  - right. subst k. rewrite Hcre in H. destruct (Hcond c H eq_refl) as [G _]. intros t Ht. apply G.
+    apply (ATF_NF [(KFile, f)] s s'); [intros x [<-|[]]; discriminate | exact NF' | exact Ht].
+  - left. rewrite creator_of_findn in H. destruct (findn (KFile, f) (nodes s')) as [n'|] eqn:Hn'; [|discriminate].
+    destruct (P1 _ _ Hne Hn') as [n0 [Hn0 [Hc|Hc]]]; [congruence|]. rewrite creator_of_findn, Hn0. congruence.
+Qed.
+
+End HH2.
+
+(* reflection of T2 and of the claims conjunct *)
+Lemma AT_attached_trees s t : NoDup (map nk (nodes s)) -> (In t (attached_trees s) <-> AT s t).
+Proof.
+  intros Hnd. unfold attached_trees, AT. rewrite in_map_iff, is_detached_findn. split.
+  - intros [n [Hn Hin]]. apply filter_In in Hin. destruct Hin as [Hin Hc]. apply andb_true_iff in Hc.
+    destruct Hc as [C1 C2]. apply kind_eqb_eq in C1. apply negb_true_iff in C2.
+    assert (E : nk n = (KTree, t)) by (destruct (nk n) as [a b]; cbn in *; subst; reflexivity).
+    rewrite <- E, (In_findn _ _ Hnd Hin). exact C2.
+  - destruct (findn (KTree, t) (nodes s)) as [n|] eqn:Hn; [|discriminate]. intros Hd.
+    pose proof (findn_In _ _ _ Hn) as [Hin Hk]. exists n. split; [rewrite Hk; reflexivity|].
+    apply filter_In. split; [exact Hin|]. rewrite Hk, Hd. reflexivity.
+Qed.
+
+Lemma T2p_reflect s : NoDup (map nk (nodes s)) -> (inv_trees_nonnested_b s = true <-> T2p s).
+Proof.
+  intros Hnd. unfold inv_trees_nonnested_b, T2p. rewrite forallb_forall. split.
+  - intros H t1 t2 H1 H2 Hp. apply (AT_attached_trees s t1 Hnd) in H1. apply (AT_attached_trees s t2 Hnd) in H2.
+    specialize (H t1 H1). rewrite forallb_forall in H. specialize (H t2 H2). rewrite Hp in H. cbn in H.
+    rewrite orb_false_r in H. apply str_eqb_eq. exact H.
+  - intros H t1 H1. apply forallb_forall. intros t2 H2.
+    destruct (is_prefix t1 t2) eqn:Hp; [|apply orb_true_r].
+    apply (AT_attached_trees s t1 Hnd) in H1. apply (AT_attached_trees s t2 Hnd) in H2.
+    rewrite (H t1 t2 H1 H2 Hp), str_eqb_refl. reflexivity.
+Qed.
+
+Lemma T3p_reflect s : NoDup (map nk (nodes s)) -> (inv_tree_claims_b s = true <-> T3p s).
+Proof.
+  intros Hnd. unfold inv_tree_claims_b, T3p. rewrite forallb_forall. split.
+  - intros H f c t Hc Ht Hp. rewrite creator_of_findn in Hc.
+    destruct (findn (KFile, f) (nodes s)) as [n|] eqn:Hn; [|discriminate].
+    pose proof (findn_In _ _ _ Hn) as [Hin Hk]. specialize (H n Hin). rewrite Hk, Hc in H.
+    rewrite forallb_forall in H. apply (AT_attached_trees s t Hnd) in Ht. specialize (H t Ht).
+    rewrite Hp in H. cbn in H. apply key_eqb_eq in H. exact H.
+  - intros H n Hin. destruct (nk n) as [[] f] eqn:Hk; try reflexivity.
+    destruct (ncre n) as [c|] eqn:Hc; [|reflexivity]. apply forallb_forall. intros t Ht.
+    destruct (is_prefix t f) eqn:Hp; [|reflexivity]. cbn. apply key_eqb_eq.
+    apply (H f c t); [rewrite creator_of_findn, <- Hk, (In_findn _ _ Hnd Hin); exact Hc | | exact Hp].
+    apply (AT_attached_trees s t Hnd). exact Ht.
+Qed.
+
+(* T3 (the boolean over attached files) follows from the claims conjunct and T1 *)
+Lemma tree_owns_of_claims s :
+  NWl (nodes s) -> T1 s -> T3p s -> inv_tree_owns_b s = true.
+Proof.
+  intros HW H1 H3. unfold inv_tree_owns_b. apply forallb_forall. intros n Hin.
+  destruct (nk n) as [[] f] eqn:Hk; try reflexivity.
+  destruct (ndet n) eqn:Hd; [reflexivity|]. cbn. apply forallb_forall. intros t Ht.
+  destruct (is_prefix t f) eqn:Hp; [|reflexivity]. cbn.
+  assert (Hl : local_ok (nodes s) n). { apply (nw_local _ HW); [exact Hin | rewrite Hk; discriminate]. }
+  unfold local_ok in Hl. destruct (ncre n) as [c|] eqn:Hc; [|congruence].
+  assert (Hcre : creator_of (KFile, f) s = Some c).
+  { rewrite creator_of_findn, <- Hk, (In_findn _ _ (nw_nodup _ HW) Hin). exact Hc. }
+  apply (AT_attached_trees s t (nw_nodup _ HW)) in Ht.
+  pose proof (H3 f c t Hcre Ht Hp) as E. subst c. destruct (H1 f t Hcre) as [_ Hs].
+  rewrite Hs. cbn. apply str_eqb_refl.
+Qed.
